@@ -1,6 +1,7 @@
 // Mode T: real threads parked and released one at a time by the deterministic scheduler (sched.cpp),
 // recording a history that is then checked for data races (TSan build), deadlock, linearizability
 // against the reference model and conservation (DESIGN.md 3.4, 3.6).
+#include <cstdlib>
 #include <functional>
 #include <memory>
 #include <sstream>
@@ -78,10 +79,22 @@ struct TaskCtx : ClauseSink {
 
 thread_local TaskCtx* t_task = nullptr;
 
+// an ordinary or a movable mock object (the two kinds use different specialisations of trompeloeil::expectations)
+struct MockBox {
+  int kind = 0;
+  MockT<false>* a = nullptr;
+  MockT<true>* m = nullptr;
+  explicit MockBox(int k) : kind(k) { if (k) m = new MockT<true>(); else a = new MockT<false>(); }
+  ~MockBox() { delete a; delete m; }
+  MockBox(const MockBox&) = delete;
+  MockBox& operator=(const MockBox&) = delete;
+  void* ptr() const { return kind ? static_cast<void*>(m) : static_cast<void*>(a); }
+};
+
 struct World {
   int ntasks = 0;
-  std::vector<std::shared_ptr<MockT<false>>> mocks;                  // controller's references
-  std::vector<std::vector<std::shared_ptr<MockT<false>>>> task_refs;  // [task][mock]
+  std::vector<std::shared_ptr<MockBox>> mocks;                  // controller's references
+  std::vector<std::vector<std::shared_ptr<MockBox>>> task_refs;  // [task][mock]
   std::vector<std::unique_ptr<trompeloeil::sequence>> seqs;
   std::vector<RExpT> exps;                                            // MAXT * EXP_PER_TASK slots
   std::vector<EP> mons;
@@ -93,16 +106,17 @@ EP tmon0(trompeloeil::deathwatched<PlainT>* w, trompeloeil::sequence**) { return
 EP tmon1(trompeloeil::deathwatched<PlainT>* w, trompeloeil::sequence** s) { auto& s0 = *s[0]; return NAMED_REQUIRE_DESTRUCTION(*w).IN_SEQUENCE(s0); }
 EP tmon2(trompeloeil::deathwatched<PlainT>* w, trompeloeil::sequence** s) { auto& s0 = *s[0]; auto& s1 = *s[1]; return NAMED_REQUIRE_DESTRUCTION(*w).IN_SEQUENCE(s0, s1); }
 
-void do_call_t(MockT<false>& m, int fn, int a0, int a1, Obs& o) {
+template <class MockType>
+void do_call_t(MockType& m, int fn, int a0, int a1, Obs& o) {
   switch (fn) {
     case FN_F1: o.value = m.f(a0); o.outcome = OC_RET_INT; break;
     case FN_F2: o.value = m.f(a0, a1); o.outcome = OC_RET_INT; break;
     case FN_G: m.g(a0); o.outcome = OC_RET_VOID; break;
     case FN_R: { int cell = a0; int& r = m.r(cell); o.refaddr = &r; o.outcome = OC_RET_REF; break; }
-    case FN_C: { const MockT<false>& cm = m; o.value = cm.c(a0); o.outcome = OC_RET_INT; break; }
+    case FN_C: { const MockType& cm = m; o.value = cm.c(a0); o.outcome = OC_RET_INT; break; }
     case FN_U: { std::unique_ptr<Tracked> p(new Tracked(a0)); o.value = m.u(std::move(p)); o.outcome = OC_RET_INT; break; }
     case FN_S: { std::string s = std::to_string(a0); o.sval = m.s(s); o.outcome = OC_RET_STR; break; }
-    case FN_K: { int cell = a0; const MockT<false>& cm = m; const int& r = cm.k(cell); o.refaddr = &r; o.outcome = OC_RET_REF; break; }
+    case FN_K: { int cell = a0; const MockType& cm = m; const int& r = cm.k(cell); o.refaddr = &r; o.outcome = OC_RET_REF; break; }
     case FN_Z: m.z(); o.outcome = OC_RET_VOID; break;
     default: break;
   }
@@ -167,8 +181,11 @@ void exec_op(World& W, TaskCtx& T, const Op& op, bool concurrent) {
   try {
     switch (op.kind) {
       case OP_CALL:
-        do_call_t(*W.task_refs[static_cast<size_t>(T.id)][static_cast<size_t>(rec.mock)], rec.fn, rec.args[0], rec.args[1], o);
+      {
+        MockBox& b = *W.task_refs[static_cast<size_t>(T.id)][static_cast<size_t>(rec.mock)];
+        if (b.kind) do_call_t(*b.m, rec.fn, rec.args[0], rec.args[1], o); else do_call_t(*b.a, rec.fn, rec.args[0], rec.args[1], o);
         break;
+      }
       case OP_EXPECT: {
         RExpT& re = W.exps[static_cast<size_t>(rec.exp)];
         re.inst.reset(new Inst); re.cell.reset(new int(1000 + rec.exp));
@@ -177,7 +194,8 @@ void exec_op(World& W, TaskCtx& T, const Op& op, bool concurrent) {
         x.lo = static_cast<size_t>(rec.L < 0 ? 0 : rec.L); x.hi = static_cast<size_t>(rec.H < 0 ? 0 : rec.H);
         x.snap = rec.snap; x.str = std::to_string(1000 + rec.exp); x.cell = re.cell.get();
         for (int i = 0; i < rec.nseq; ++i) x.s[i] = W.seqs[static_cast<size_t>(rec.seqs[i])].get();
-        re.ep = shape_fns(rec.shape).make[0](W.task_refs[static_cast<size_t>(T.id)][static_cast<size_t>(rec.mock)].get(), x);
+        MockBox& b = *W.task_refs[static_cast<size_t>(T.id)][static_cast<size_t>(rec.mock)];
+        re.ep = shape_fns(rec.shape).make[b.kind](b.ptr(), x);
         T.own_exps.push_back(rec.exp); ++T.n_exp;
         o.outcome = OC_DONE;
         break;
@@ -217,7 +235,7 @@ void exec_op(World& W, TaskCtx& T, const Op& op, bool concurrent) {
         break;
       case OP_DROP_MOCK_REF: {
         auto& ref = W.task_refs[static_cast<size_t>(T.id)][static_cast<size_t>(rec.mock)];
-        std::weak_ptr<MockT<false>> wk = ref;
+        std::weak_ptr<MockBox> wk = ref;
         ref.reset();
         rec.last_ref = wk.expired();
         T.held_mocks.erase(std::find(T.held_mocks.begin(), T.held_mocks.end(), rec.mock));
@@ -264,7 +282,7 @@ Plan gen_plan_t(uint64_t seed, bool faults) {
   p.cfg.policy_param = p.cfg.policy == POL_STICKY ? rng.range(30, 90) : p.cfg.policy == POL_PCT ? rng.range(1, 4) : rng.range(1, 5);
   int nmocks = rng.range(1, 3), nseqs = rng.range(0, 2);
   // setup by the controller: mocks, sequences, a few long-lived expectations
-  for (int i = 0; i < nmocks; ++i) { Op o; o.kind = OP_NEW_MOCK; p.setup.push_back(o); }
+  for (int i = 0; i < nmocks; ++i) { Op o; o.kind = OP_NEW_MOCK; o.a[0] = rng.chance(1, 3) ? 1 : 0; p.setup.push_back(o); }
   for (int i = 0; i < nseqs; ++i) { Op o; o.kind = OP_NEW_SEQ; p.setup.push_back(o); }
   int nfocus = rng.range(1, 2), focus[2] = {0, 0};
   static const int fw[NFN] = {10, 3, 5, 1, 2, 1, 2, 1, 2};
@@ -348,7 +366,7 @@ TResult run_modet(const Plan& plan) {
   if (!plan.schedule.empty()) sched_set_explicit(plan.schedule.data(), static_cast<int>(plan.schedule.size()));
   // ---- setup ----
   for (auto& op : plan.setup) {
-    if (op.kind == OP_NEW_MOCK) W.mocks.push_back(std::make_shared<MockT<false>>());
+    if (op.kind == OP_NEW_MOCK) W.mocks.push_back(std::make_shared<MockBox>(op.a[0] & 1));
     else if (op.kind == OP_NEW_SEQ) W.seqs.push_back(std::unique_ptr<trompeloeil::sequence>(new trompeloeil::sequence));
   }
   W.task_refs.assign(static_cast<size_t>(W.ntasks) + 1, W.mocks);
@@ -436,6 +454,19 @@ TResult run_modet(const Plan& plan) {
   long accepted = 0, oks = 0, rejected = 0;
   for (auto& o : L.ops) if (o.kind == OP_CALL) { if (o.obs.outcome == OC_THREW_FATAL) ++rejected; else ++accepted; oks += static_cast<long>(o.obs.oks.size()); }
   R.calls_accepted = accepted; R.calls_rejected = rejected;
+  if (globals().verbose) {
+    for (auto& o : L.ops) {
+      std::ostringstream os;
+      os << "t" << o.task << '#' << o.idx << ' ' << op_name(o.kind) << " mock=" << o.mock << " exp=" << o.exp << " seq=" << o.seq << " w=" << o.watched << " mon=" << o.mon
+         << " fn=" << o.fn << " args=" << o.args[0] << ',' << o.args[1] << " shape=" << o.shape << " last_ref=" << o.last_ref << " [" << o.invoke << ".." << o.response << "] cs=";
+      for (auto c : o.cs) os << c << ' ';
+      os << "-> " << outcome_name(o.obs.outcome) << ' ' << o.obs.value << ' ' << o.obs.flag << o.obs.flag2 << " oks=" << o.obs.oks.size();
+      for (auto& r : o.obs.reports) { std::string m = r.msg; for (auto& ch : m) if (ch == '\n') ch = '|'; os << " REPORT{" << m.substr(0, 160) << '}'; }
+      std::fprintf(stderr, "  | %s\n", os.str().c_str());
+    }
+  }
+  L.debug = globals().verbose;
+  { static const bool nh = std::getenv("SIM_LIN_NOHINT") != nullptr; L.no_hint = nh; }
   LinResult lr = L.check(S);
   R.lin_verdict = lr.verdict; R.lin_text = lr.text; R.lin_nodes = lr.nodes; R.lin_by_hint = lr.by_hint;
   if (accepted != oks && lr.verdict == 1) { R.lin_verdict = 0; R.lin_text = "conservation: " + std::to_string(accepted) + " accepted calls but " + std::to_string(oks) + " OK reports"; }
